@@ -82,18 +82,18 @@ inductive SortedBy (le : Row → Row → Bool) : List Row → Prop
 
 /-! ### Row handlers (row_handler.rs) -/
 
-/-- `From<SecondaryRowHandler> for i64`: `(rowset_id << 32) | row_id`. -/
-def encodeHandler (rs row : Nat) : Int := Int.ofNat (rs * 2 ^ 32 + row % 2 ^ 32)
-
-/-- `From<i64> for SecondaryRowHandler`; `none` = the `assert!(data >= 0)` fires. An `i64` that is
-out of range wraps: modelled by the caller passing the wrapped value. -/
-def decodeHandler (h : Int) : Option (Nat × Nat) :=
-  if h < 0 then none else some (h.toNat / 2 ^ 32 % 2 ^ 32, h.toNat % 2 ^ 32)
-
 /-- two's-complement reading of a 64-bit pattern as `i64`. -/
 def wrapI64 (n : Nat) : Int :=
   let m := n % 2 ^ 64
   if m < 2 ^ 63 then Int.ofNat m else Int.ofNat m - 2 ^ 64
+
+/-- `From<SecondaryRowHandler> for i64`: `((rowset_id as i64) << 32) | (row_id as i64)` for two
+`u32`s (the shift wraps into the sign bit for `rowset_id ≥ 2^31`). -/
+def encodeHandler (rs row : Nat) : Int := wrapI64 (rs * 2 ^ 32 + row)
+
+/-- `From<i64> for SecondaryRowHandler`; `none` = the `assert!(data >= 0)` fires. -/
+def decodeHandler (h : Int) : Option (Nat × Nat) :=
+  if h < 0 then none else some (h.toNat / 2 ^ 32 % 2 ^ 32, h.toNat % 2 ^ 32)
 
 /-! ### Delete vectors (delete_vector.rs) -/
 
@@ -117,11 +117,15 @@ def applyLoop : List Nat → Nat → List Bool → List Bool
 def dvApplyTo (deletes : List Nat) (off : Nat) (bits : List Bool) : List Bool :=
   applyLoop (deletes.dropWhile (· < off)) off bits
 
+/-- `StorageChunk::construct(visibility_map, arrays)` seen row-wise: keep the rows whose bit is set -/
+def pickBits : Nat → List Row → List Bool → List (Nat × Row)
+  | i, r :: rs, b :: bs => if b then (i, r) :: pickBits (i + 1) rs bs else pickBits (i + 1) rs bs
+  | _, _, _ => []
+
 /-- one `next_batch_inner` of `RowSetIterator` w.r.t. visibility: all DVs applied to an all-true
 bitmap of the batch, rows selected. -/
 def batchVisible (dvs : List (List Nat)) (off : Nat) (batch : List Row) : List (Nat × Row) :=
-  let bits := dvs.foldl (fun bm dv => dvApplyTo dv off bm) (batch.map fun _ => true)
-  ((batch.zipIdx off).zip bits).filterMap fun ((r, i), b) => if b then some (i, r) else none
+  pickBits off batch (dvs.foldl (fun bm dv => dvApplyTo dv off bm) (batch.map fun _ => true))
 
 /-- scan of one row-set cut into batches of the given sizes (any sizes: block boundaries,
 `ROWSET_MAX_OUTPUT`, `expected_size`); a trailing remainder is one more batch. -/
@@ -403,9 +407,13 @@ def Store.compactTable (s : Store) (tid : Nat) (d : TableDef) (sel : List Nat) :
           rowsets := keep ++ [(tid, s.nextRs)]
           pending := pend }
 
-/-- one pass of `Compactor::run`: every table, its own commit -/
-def Store.compact (s : Store) (sel : Nat → List Nat) : Store :=
-  s.tables.foldl (fun st (tid, d) => st.compactTable tid d (sel tid)) s
+/-- one pass of `Compactor::run`: tables are visited in hash-map order, each with its own commit;
+`plan` = the visiting order together with each table's selection (tables that are not listed
+are not compacted, which is what an empty selection does as well) -/
+def Store.compact (s : Store) (plan : List (Nat × List Nat)) : Store :=
+  plan.foldl (fun st (tid, sel) => match lookup tid st.tables with
+    | some d => st.compactTable tid d sel
+    | none => st) s
 
 /-- `do_vacuum` with nothing pinned -/
 def Store.vacuum (s : Store) : Store :=
@@ -489,7 +497,7 @@ inductive Op where
   | drop (n : String)
   | insert (n : String) (parts : List (List Row))
   | delete (n : String) (p : Row → Bool)
-  | compact (sel : Nat → List Nat)
+  | compact (plan : List (Nat × List Nat))
   | vacuum
   | reopen
 
@@ -506,7 +514,7 @@ def stepUp (s : Store) : Op → St × Out
   | .drop n => let (s', o) := s.drop n; (.up s', o)
   | .insert n parts => let (s', o) := s.insert n parts; (.up s', o)
   | .delete n p => let (s', o) := s.delete n p; (.up s', o)
-  | .compact sel => (.up (s.compact sel), .ok 0)
+  | .compact plan => (.up (s.compact plan), .ok 0)
   | .vacuum => (.up s.vacuum, .ok 0)
   | .reopen => match s.reopen with
     | .ok s' => (.up s', .ok 0)
